@@ -141,6 +141,7 @@ IStep(m, B, jt, ar, P, v) ==
       [] o = "nop"   -> aft(nx)
       [] o = "const" -> aft([nx EXCEPT !.vs = Append(@, c.v)])
       [] o = "drop"  -> IF Len(m1.vs) = 0 THEN Stuck(m1) ELSE aft([nx EXCEPT !.vs = Pop(@)])
+      [] o = "try"   -> [nx EXCEPT !.ls = Append(@, Label("block", jt[i].end + 1, Len(m1.vs), c.r, i, jt[i].end))]
       [] o = "block" -> entry([nx EXCEPT !.ls = Append(@, Label("block", jt[i].end + 1, Len(m1.vs), c.r, i, jt[i].end))], s)
       [] o = "loop"  -> entry([nx EXCEPT !.ls = Append(@, Label("loop", i + 1, Len(m1.vs), c.r, i, jt[i].end))], s)
       [] o = "if"    -> IF Len(m1.vs) = 0 THEN Stuck(m1)
